@@ -148,6 +148,11 @@ def stat_run(spec):
             check(counts[~cellmask].sum() == 0, 'random_pauli_map produced entangling maps', 'pauli-map-not-product')
             counts = counts[cellmask]
             distinct = set(range(int((counts > 0).sum())))
+        if what == 'pauli-map' and N >= 2:
+            # independence across qubits: aggregate over signs (6^N classes) - far more samples per cell
+            agg = counts.reshape(-1, 4 ** N).sum(1)
+            st2, p2 = chi2_p(agg, np.full(len(agg), n / len(agg)))
+            check(p2 >= P_REJECT, 'random_pauli_map(N=%d): joint distribution over the %d products of single-qubit classes is not uniform: chi-square %.1f p=%.3g (n=%d)' % (N, len(agg), st2, p2, n), 'not-uniform')
         exp = np.full(len(counts), n / len(counts))
         stat, p = chi2_p(counts, exp)
         check(p >= P_REJECT, '%s(N=%d): chi-square %.1f over %d cells, p=%.3g, empty cells %d (n=%d)' % (what, N, stat, len(counts), p, int((counts == 0).sum()), n), 'not-uniform')
@@ -301,7 +306,7 @@ NPT = [{'what': 'clifford', 'N': 1, 'n': 240000}, {'what': 'clifford-signed', 'N
        {'what': 'pauli-map', 'N': 1, 'n': 120000}, {'what': 'pauli-map', 'N': 2, 'n': 600000}, {'what': 'pair', 'N': 1, 'n': 60000}, {'what': 'pair', 'N': 2, 'n': 240000},
        {'what': 'pair', 'N': 3, 'n': 500000}, {'what': 'signs', 'N': 3, 'n': 100000}, {'what': 'bitstate', 'N': 4, 'n': 100000}, {'what': 'coin', 'N': 2, 'n': 400000}, {'what': 'coin-mixed', 'N': 2, 'n': 200000, 'configs': 200}, {'what': 'coin-mixed', 'N': 3, 'n': 300000, 'configs': 300}, {'what': 'coin-mixed', 'N': 4, 'n': 300000, 'configs': 300},
        {'what': 'resample', 'N': 1, 'n': 200000}]
-TQ = [{'what': 'clifford', 'N': 1, 'n': 6000}, {'what': 'clifford', 'N': 2, 'n': 14400}, {'what': 'pauli-map', 'N': 2, 'n': 12000}, {'what': 'pair', 'N': 2, 'n': 6000}]
+TQ = [{'what': 'clifford', 'N': 1, 'n': 6000}, {'what': 'clifford', 'N': 2, 'n': 14400}, {'what': 'pauli-map', 'N': 2, 'n': 40000}, {'what': 'pair', 'N': 2, 'n': 6000}]
 TT = [{'what': 'clifford', 'N': 1, 'n': 60000}, {'what': 'clifford', 'N': 2, 'n': 200000}, {'what': 'clifford-signed', 'N': 1, 'n': 60000},
       {'what': 'pauli-map', 'N': 2, 'n': 120000}, {'what': 'pair', 'N': 2, 'n': 60000}, {'what': 'signs', 'N': 2, 'n': 40000}]
 
